@@ -3,7 +3,7 @@
      in : K<cap> C<nconns> step step ...
      out: {"c":[[frames of conn 0],..],"end":[..],"r":[result of every step]}
    A script step is a macro over model steps (accept = Accept1;Accept2, send = SendCheck;SendEnqueue,
-   return = HandlerReturn;CloseNotify); after every script step the writer drains all queues (drain_trace), which is
+   return = HandlerReturn;CloseNotify; ab,s,k|d = AbandonCall; dp,s = DropPending); after every script step the writer drains all queues (drain_trace), which is
    what polling to quiescence does on the real side.  `subhist old` runs the unrepaired Drop (step_old). *)
 open Common
 open Subhist_model
@@ -25,7 +25,8 @@ let frame_json = function
     let code, msg = match e with
       | ETooMany -> -32006, "Too many subscriptions on the connection"
       | EInternal -> -32603, "Internal error"
-      | ERejected c -> int_of_z c, "rejected" in
+      | ERejected c -> int_of_z c, "rejected"
+      | EAbandoned -> 44, "abandoned" in
     Printf.sprintf "{\"error\":{\"code\":%d,\"message\":\"%s\"},\"id\":%d,\"jsonrpc\":\"2.0\"}" code msg (int_of_n req)
   | FUnsub (req, b) -> Printf.sprintf "{\"id\":%d,\"jsonrpc\":\"2.0\",\"result\":%s}" (int_of_n req) (if b then "true" else "false")
   | FNotif (_, sid, x, _) ->
@@ -71,6 +72,11 @@ let handle old line =
                  | OAccept (_, true) :: _ -> res "ok"
                  | _ -> res "model-bug"))
           | "rej" -> (match do_act (Reject (nat 1, z_of_int (i 2))) with [] -> res "na" | _ -> res "ok")
+          | "ab" ->
+            (* the subscribe call is abandoned; k: the pending sink lives on in a task of its own, d: it dies with the handler *)
+            let keep = match (if Array.length f > 2 then f.(2) else "k") with "k" -> true | "d" -> false | _ -> raise (Bad tok) in
+            (match do_act (AbandonCall (nat 1, keep)) with [] -> res "na" | _ -> res "ok")
+          | "dp" -> (match do_act (DropPending (nat 1)) with [] -> res "na" | _ -> res "ok")
           | "cl" -> (match do_act (CloneSink (nat 1, n 2, n 3)) with [] -> res "na" | _ -> res "ok")
           | "dr" -> (match do_act (DropSink (nat 1, n 2)) with [] -> res "na" | _ -> res "ok")
           | "snd" | "tsnd" ->
